@@ -30,6 +30,7 @@ TCancel   == Line.e = "cancel"   /\ Cancel(Line.r)
 TCloseB   == Line.e = "closebody" /\ CloseBody(Line.r)
 TNoop     == Line.e \in {"tick", "bwrite", "bclose", "e_ping", "e_goaway"} /\ Same
 TSettings == Line.e = "p_settings" /\ Settings(Line.c, Line.max)
+TSetOther == Line.e = "p_settings_other" /\ SettingsOther(Line.c)
 TResp     == Line.e = "p_resp"   /\ Resp(Line.c, Line.s, Line.es)
 TSData    == Line.e = "p_data"   /\ SData(Line.c, Line.s, Line.es)
 TSRst     == Line.e = "p_rst"    /\ SRst(Line.c, Line.s, Line.code)
@@ -49,7 +50,7 @@ TEnd      == Line.e = "end" /\ (J18 => (AllTerminated \/ "StrictQueueStall" \in 
 TNext ==
     /\ l <= Meta.ends[cur]
     /\ l' = l + 1 /\ cur' = cur
-    /\ (TStart \/ TStartOn \/ TReserve \/ TCancel \/ TCloseB \/ TNoop \/ TSettings \/ TResp \/ TSData \/ TSRst
+    /\ (TStart \/ TStartOn \/ TReserve \/ TCancel \/ TCloseB \/ TNoop \/ TSettings \/ TSetOther \/ TResp \/ TSData \/ TSRst
         \/ TPingAck \/ TGoAway \/ TSClose \/ TDial \/ THdr \/ TData \/ TRst \/ TRet \/ TCClosed \/ TQ \/ TEnd)
     /\ dn' = (dev' # dev)
 
